@@ -178,6 +178,9 @@ class AbstractPathModelDAG(ABC):
         if self.subpath_constraints_coverage <= 0 or self.subpath_constraints_coverage > 1:
             utils.logger.error(f"{__name__}: subpath_constraints_coverage must be in the range (0, 1]")
             raise ValueError("subpath_constraints_coverage must be in the range (0, 1]")
+        if self.subpath_constraints_coverage_length is not None and (self.subpath_constraints_coverage_length <= 0 or self.subpath_constraints_coverage_length > 1):
+            utils.logger.error(f"{__name__}: subpath_constraints_coverage_length must be in the range (0, 1]")
+            raise ValueError("If set, subpath_constraints_coverage_length must be in the range (0, 1]")
         if len(subpath_constraints) > 0:
 
             if self.subpath_constraints_coverage_length is not None:
